@@ -28,6 +28,9 @@ var hotKinds, hotUnits uint64
 
 var calHits int
 
+// clockOffset0: where the simulated clock of this process starts, relative to the real one.
+var clockOffset0 int64
+
 // wantOpHashes: every done event carries one digest per operation (used to locate an O8 difference).
 var wantOpHashes bool
 
@@ -116,7 +119,7 @@ func installHook() {
 	}
 	numLabels = int(numOps) * (numKinds + 1)
 	pairSeen = make([]uint64, (numLabels*numLabels+63)/64)
-	hook.SimNow = simEpoch // the simulated clock starts on 2026-01-01T00:00:00Z in every worker process
+	hook.ClockOffset = clockOffset0
 	sMainG = getg()
 	hook.SleepFunc = sleepHook
 	hook.Hook = yieldHook
@@ -322,7 +325,7 @@ func executeRun(s *RunSpec, runIdx int, racePath string) (doneEv, *violEv) {
 	if hook.ClockSites > 0 {
 		d.Faults["clock_jump"] = int(sClkJumps)
 		d.Faults["clock_reads_by_the_tree"] = int(hook.ClockReads)
-		d.SimS = float64(hook.SimNow-sClkStart) / 1e9
+		d.SimS = float64(hook.ClockOffset-sClkStart) / 1e9
 		hook.ClockReads = 0
 	}
 	if s.Sched.StallHot {
@@ -401,6 +404,7 @@ func main() {
 	wd := flag.Int("watchdog", 60, "seconds after which a single run is declared stuck (exit 5)")
 	cpuprof := flag.String("cpuprofile", "", "write a CPU profile (development aid)")
 	only := flag.Int("only", -1, "execute only this run of the batch (in a process without history)")
+	clkOff := flag.Int64("clockoffset", 0, "initial offset of the simulated clock in seconds (history-free twin processes get another date than the batch)")
 	backwards := flag.Bool("backwards", false, "volume operations walk their distinct values in reverse order (history-free twin process of O8)")
 	opHashes := flag.Bool("ophashes", false, "report one digest per operation with every run")
 	calib := flag.Bool("calibrate", false, "print which packet kinds and unit operations reach statements that touch shared state")
@@ -475,6 +479,8 @@ func main() {
 	}
 	wantOpHashes = *opHashes
 	volumeBackwards = *backwards
+	_ = clkOff // the offset itself comes in through SIM_CLOCK_OFFSET (package initialisers of the tree run before main)
+	clockOffset0 = hook.ClockOffset
 	for j, s := range specs {
 		if *only >= 0 && j != *only {
 			continue
